@@ -1944,6 +1944,20 @@ impl PropertyKey {
         }
     }
 
+    /// Canonical key for a property name given as text by the host or by parsed data: a
+    /// canonical array index ("0", "17") becomes `Index`, everything else `String`. Building
+    /// `PropertyKey::String("1")` directly yields a key that `obj[1]` never finds.
+    pub fn from_name(name: &str) -> Self {
+        if let Some(first) = name.bytes().next()
+            && first.is_ascii_digit()
+            && let Ok(idx) = name.parse::<u32>()
+            && idx.to_string() == name
+        {
+            return PropertyKey::Index(idx);
+        }
+        PropertyKey::String(JsString::from(name))
+    }
+
     /// Check if this is a symbol key
     pub fn is_symbol(&self) -> bool {
         matches!(self, PropertyKey::Symbol(_))
